@@ -466,8 +466,11 @@ theorem takeK_sound (src : Src) (fuel : Nat) : ∀ (k : Nat) (sts : List StageSt
 
 theorem drive_init (k : Kind) (us : List V) (t : Term) :
     drive (StageSt.init k) us t = stageTr k ⟨us, t⟩ := by
-  simp only [drive, driveIdle, StageSt.init, stageTr, Tr.prepend_nil]
-  by_cases h : k.initStopped = true <;> simp [h]
+  simp only [drive, driveIdle, StageSt.init, stageTr]
+  by_cases h : k.initStopped = true
+  · simp only [h, ↓reduceIte, Bool.true_and]
+    rcases k.initErr with _ | e <;> simp [Tr.prepend]
+  · simp [h, Tr.prepend]
 
 theorem denoteF_init (src : Src) (k : Kind) (acc : List StageSt) (pos N : Nat) :
     denoteF src (StageSt.init k :: acc) pos N = stageTr k (denoteF src acc pos N) := by
@@ -608,7 +611,7 @@ theorem denote_isMore (sts : List StageSt) (us : List V) (t : Term) :
 theorem stageTr_isMore (k : Kind) (d : Tr) : (stageTr k d).term.isMore = true → d.term.isMore = true := by
   simp only [stageTr]
   by_cases h : k.initStopped = true
-  · simp [h, Term.isMore]
+  · cases he : k.initErr <;> simp [h, he, Term.isMore]
   · simpa [h] using foldCore_isMore _ d.items d.term
 
 theorem pipeTr_isMore (ks : List Kind) (d : Tr) : (pipeTr ks d).term.isMore = true → d.term.isMore = true := by
@@ -967,6 +970,8 @@ theorem V.beq_refl : ∀ v : V, V.beq v v = true
   | .str s => by simp [V.beq]
   | .obj c => by simp [V.beq]
   | .ref i v => by simp [V.beq, V.beq_refl v]
+  | .sent b => by simp [V.beq]
+  | .gen => by simp [V.beq]
 theorem V.beqL_refl : ∀ xs : List V, V.beqL xs xs = true
   | [] => by simp [V.beqL]
   | x :: xs => by simp [V.beqL, V.beq_refl x, V.beqL_refl xs]
@@ -1012,17 +1017,22 @@ theorem V.eq_of_beq : ∀ a b : V, V.beq a b = true → a = b
   | .flt i, b, h => by cases b <;> first | (simp [V.beq] at h; rw [h]) | simp [V.beq] at h
   | .str i, b, h => by cases b <;> first | (simp [V.beq] at h; rw [h]) | simp [V.beq] at h
   | .obj i, b, h => by cases b <;> first | (simp [V.beq] at h; rw [h]) | simp [V.beq] at h
+  | .sent i, b, h => by cases b <;> first | (simp [V.beq] at h; rw [h]) | simp [V.beq] at h
+  | .gen, b, h => by cases b <;> first | rfl | simp [V.beq] at h
   | .list xs, .list ys, h => by simp only [V.beq] at h; rw [V.eq_of_beqL xs ys h]
   | .tup xs, .tup ys, h => by simp only [V.beq] at h; rw [V.eq_of_beqL xs ys h]
   | .ref i a, .ref j b, h => by
     simp only [V.beq, Bool.and_eq_true, beq_iff_eq] at h
     rw [h.1, V.eq_of_beq a b h.2]
   | .list _, .none, h | .list _, .int _, h | .list _, .tup _, h | .list _, .bool _, h | .list _, .flt _, h
-  | .list _, .str _, h | .list _, .obj _, h | .list _, .ref _ _, h => by simp [V.beq] at h
+  | .list _, .str _, h | .list _, .obj _, h | .list _, .ref _ _, h | .list _, .sent _, h | .list _, .gen, h => by
+    simp [V.beq] at h
   | .tup _, .none, h | .tup _, .int _, h | .tup _, .list _, h | .tup _, .bool _, h | .tup _, .flt _, h
-  | .tup _, .str _, h | .tup _, .obj _, h | .tup _, .ref _ _, h => by simp [V.beq] at h
+  | .tup _, .str _, h | .tup _, .obj _, h | .tup _, .ref _ _, h | .tup _, .sent _, h | .tup _, .gen, h => by
+    simp [V.beq] at h
   | .ref _ _, .none, h | .ref _ _, .int _, h | .ref _ _, .list _, h | .ref _ _, .bool _, h | .ref _ _, .flt _, h
-  | .ref _ _, .str _, h | .ref _ _, .obj _, h | .ref _ _, .tup _, h => by simp [V.beq] at h
+  | .ref _ _, .str _, h | .ref _ _, .obj _, h | .ref _ _, .tup _, h | .ref _ _, .sent _, h | .ref _ _, .gen, h => by
+    simp [V.beq] at h
 theorem V.eq_of_beqL : ∀ as bs : List V, V.beqL as bs = true → as = bs
   | [], [], _ => rfl
   | a :: as, b :: bs, h => by
@@ -1570,7 +1580,7 @@ theorem stage_ref (k : Kind) (hw : k.wf = true) (xs ys : List V) (h : refE k xs 
     | some s =>
       by_cases hz : a = 0 ∧ s = 0
       · obtain ⟨rfl, rfl⟩ := hz
-        simp [stageTr, Kind.initStopped, sliceStatus, sliceL, stepAux]
+        simp [stageTr, Kind.initStopped, Kind.initOut, Kind.initErr, sliceStatus, sliceL, stepAux]
       · have := fold_slice_some a s step hw xs (Core.init (.slice a (some s) step)) rfl
           (by simp [Core.init]) (by simp [Core.init]; omega)
         have hns : ¬ (a = 0 ∧ s = 0) := hz
@@ -1618,6 +1628,11 @@ theorem stage_ref (k : Kind) (hw : k.wf = true) (xs ys : List V) (h : refE k xs 
       have := fold_unique key xs ks (Core.init (.unique key)) [] rfl hks hhash (by simp [Core.init])
       simpa [stageTr, Kind.initStopped] using this
     · simp [throw, throwThe, MonadExceptOf.throw] at h
+  | raises e a => simp [refE] at h
+  | wrapIter =>
+    simp only [refE, Except.ok.injEq] at h
+    subst h
+    simp [stageTr, Kind.initStopped, Kind.initOut, Kind.initErr]
 
 theorem compose_ref : ∀ (kinds : List Kind) (xs ys : List V), (∀ k ∈ kinds, k.wf = true) →
     composeE kinds xs = .ok ys → pipeTr kinds ⟨xs, .eof⟩ = ⟨ys, .eof⟩ := by
@@ -2698,6 +2713,28 @@ theorem BHeap.history_view (fwd : Bool) : ∀ (calls : List (Nat × Entry)) (h :
     simp only [BHeap.history]
     rw [ih _ (BHeap.addOp_wf fwd h hw j e) i (Nat.lt_of_lt_of_le hi (BHeap.addOp_iters_length fwd h j e))]
     exact BHeap.addOp_view_old fwd h hw j e i hi
+
+/-- a chain of builder calls starting at object `i`: the heap stays well-formed, the last object
+    returned is the entries added one by one to what `i` was, every object that existed is what it was -/
+theorem BHeap.chain_spec (fwd : Bool) : ∀ (es : List Entry) (h : BHeap) (i : Nat) (it : Iter), h.wf →
+    h.view i = some it →
+    (h.chain fwd i es).1.wf ∧ (h.chain fwd i es).1.view (h.chain fwd i es).2 = some (es.foldl (Iter.addOp fwd) it) ∧
+    h.iters.length ≤ (h.chain fwd i es).1.iters.length ∧
+    ∀ j, j < h.iters.length → (h.chain fwd i es).1.view j = h.view j := by
+  intro es
+  induction es with
+  | nil => intro h i it hw hv; exact ⟨hw, hv, Nat.le_refl _, fun _ _ => rfl⟩
+  | cons e es ih =>
+    intro h i it hw hv
+    obtain ⟨_, hnew⟩ := BHeap.addOp_view_new fwd h hw i e it hv
+    obtain ⟨h1, h2, h3, h4⟩ := ih (h.addOp fwd i e).1 (h.addOp fwd i e).2 (it.addOp fwd e)
+      (BHeap.addOp_wf fwd h hw i e) hnew
+    have hle := BHeap.addOp_iters_length fwd h i e
+    refine ⟨h1, h2, Nat.le_trans hle h3, fun j hj => ?_⟩
+    have := h4 j (Nat.lt_of_lt_of_le hj hle)
+    simp only [BHeap.chain, List.foldl_cons] at this ⊢
+    rw [this]
+    exact BHeap.addOp_view_old fwd h hw i e j hj
 
 theorem BHeap.newIter_wf (h : BHeap) (hw : h.wf) (sub : BaseFn) (s : Option V) : (h.newIter sub s).1.wf := by
   unfold BHeap.wf at hw ⊢
